@@ -177,6 +177,22 @@ fn main() {
             write_ndjson(&args[4], &items);
             println!("{} sessions", items.len());
         }
+        "containers" => {
+            // tsgv containers <seqs.ndjson> <out.ndjson>: only sequences that disagree are written out
+            exec::silence_panics();
+            let items = read_ndjson(&args[2]);
+            let mut bad = Vec::new();
+            let mut ops = 0usize;
+            for it in items.iter() {
+                ops += it["hist"].as_array().map(|a| a.len()).unwrap_or(0);
+                let r = std::panic::catch_unwind(|| api::containers(it)).unwrap_or_else(|p| json!({"op": "panic", "detail": api::panic_msg(p)}));
+                if !r.is_null() {
+                    bad.push(json!({"seq": it, "mismatch": r}));
+                }
+            }
+            write_ndjson(&args[3], &bad);
+            println!("{} sequences {} operations {} mismatches", items.len(), ops, bad.len());
+        }
         "retabs" => {
             // tsgv retabs <pool.json> <out.json>: tables of every (regex, subject) of a pool (oracle: regex crate)
             let pool: J = serde_json::from_str(&std::fs::read_to_string(&args[2]).expect("pool")).expect("json");
